@@ -158,6 +158,7 @@ def checkStress (lines : List String) : CaseResult := Id.run do
           let sig := if what == "sno" then (if gor ≥ 2 then "sno_concurrent_duplicate" else "sno_single_duplicate")
             else if what == "fallback" then "fallback_duplicate"
             else if what == "fbcreate" then "fallback_same_prefix"
+            else if what == "manygens" then "generators_share_ids"
             else "stress_duplicate"
           r := { r with specs := s!"{sig}: {dups} duplicates among {total} ids ({gor} goroutines x {each} x {gens} generators), first {first}" :: r.specs }
         r := { r with nontrivial := total > 1 }
@@ -264,6 +265,7 @@ def check (params : List String) (lines : List String) : CaseResult :=
   | "sno_conc" :: _ => checkStress lines
   | "fb_conc" :: _ => checkStress lines
   | "fb_create" :: _ => checkStress lines
+  | "many_gens" :: _ => checkStress lines
   | "fb_single" :: _ => checkFb lines
   | "engine" :: builder :: _ => checkEngine builder lines
   | _ => { bad := ["c20 params"] }
